@@ -38,8 +38,36 @@ def _group_uses(node, var):
     out = []
     for n in ast.walk(node):
         if isinstance(n, ast.Call) and isinstance(n.func, ast.Attribute) and n.func.attr == 'group' and is_name(n.func.value, var) and n.args:
-            out.append((n, const_val(n.args[0])))
+            out.append((n, _gnum(n.args[0])))
     return out
+
+
+def _gnum(e):
+    """group number: a constant, or constant arithmetic (`3 - 1` after a helper taking the digits group was inlined)"""
+    v = const_val(e, None)
+    if v is None and isinstance(e, ast.BinOp) and isinstance(e.op, (ast.Add, ast.Sub)):
+        a, b = _gnum(e.left), _gnum(e.right)
+        if isinstance(a, int) and isinstance(b, int):
+            return a + b if isinstance(e.op, ast.Add) else a - b
+    return v
+
+
+def _base_of(base, blk):
+    """the base argument as an IfExp: itself, or the local it names when that local is set once by `b = 16 if t else 10` or by
+    `if t: b = 16` / `else: b = 10`"""
+    if not isinstance(base, ast.Name):
+        return base
+    defs = []
+    for n in ast.walk(blk):
+        if isinstance(n, ast.Assign) and len(n.targets) == 1 and is_name(n.targets[0], base.id):
+            defs.append(n)
+    if len(defs) == 1 and isinstance(defs[0].value, ast.IfExp):
+        return defs[0].value
+    if len(defs) == 2:
+        for n in ast.walk(blk):
+            if isinstance(n, ast.If) and len(n.body) == 1 and len(n.orelse) == 1 and n.body[0] is defs[0] and n.orelse[0] is defs[1]:
+                return ast.IfExp(test=n.test, body=defs[0].value, orelse=defs[1].value)
+    return base
 
 
 @rule('T9', 'regex-roles: group roles of the alignment / colour / spec-splitting regexes and every match.group(i) use', floor=8)
@@ -171,7 +199,7 @@ def T9(m, R):
             for n, icall, dest in conv:
                 a = icall.args
                 g_digits = _group_uses(a[0], var) if a else []
-                base = a[1] if len(a) > 1 else None
+                base = _base_of(a[1], blk) if len(a) > 1 else None
                 ok = False
                 if len(g_digits) == 1 and isinstance(base, ast.IfExp):
                     gb = _group_uses(base.test, var)
@@ -243,6 +271,11 @@ def T9(m, R):
                     if fc is not None:
                         uses = _group_uses(fc, var)
                         role = 'FILL'
+                    wd = bound.get('width')
+                    if wd is not None:
+                        for _, g_ in _group_uses(wd, var):
+                            if roles.get(g_, ('?',))[0] != 'WIDTH':
+                                problems.append('the width passed to %s is taken from group %s (%s), the WIDTH group is %s' % (call_name(n), g_, roles.get(g_, ('?',))[0], by_role.get('WIDTH')))
                     want_method = {'<': 'ljust', '>': 'rjust', '^': 'center'}[ch]
                     if call_name(n) != want_method:
                         problems.append("alignment '%s' pads with %s, expected %s" % (ch, call_name(n), want_method))
